@@ -17,14 +17,14 @@ func init() {
 	register(&propDef{
 		ID:  "C13",
 		Run: runC13,
-		Explain: "Decided: (a) comparator purity: every comparator literal of pkg/aggregation/sorting writes no captured or package-level variable (a comparator with memory makes the order depend on the sequence of comparisons, i.e. on arrival order); (b) per-element strategy: a comparator must not choose between two different order relations by a condition that conjoins facts about both arguments unless the mixed case is ordered by class; (c) nothing reaches the screen or CSV in hash order: every range over a map in pkg/aggregation, pkg/csv, cmd and pkg/multiterm is order-insensitive or its collected slice is sorted before any use (through callers, depth 2), and every comparator over name/value pairs consults the names of both arguments (a tie-break), so distinct keys are never left in input order; (d) Reverse returns the negation of the same comparator on the same argument order, the value sort compares values and falls back to names, sort modifiers map to the documented directions; (e) the weekday/month tables put every name and abbreviation at its calendar position. " +
+		Explain: "Decided: (a) comparator purity: every comparator literal of pkg/aggregation/sorting writes no captured or package-level variable (a comparator with memory makes the order depend on the sequence of comparisons, i.e. on arrival order); (b) per-element strategy: a comparator must not choose between two different order relations by a condition that conjoins facts about both arguments unless the mixed case is ordered by class; (c) nothing reaches the screen or CSV in hash order: every range over a map in pkg/aggregation, pkg/csv, cmd and pkg/multiterm is order-insensitive or its collected slice is sorted before any use (through callers, depth 2), and every comparator over name/value pairs consults the names of both arguments (a tie-break), so distinct keys are never left in input order; (d) Reverse returns the negation of the same comparator on the same argument order, the value sort compares values and falls back to names, sort modifiers map to the documented directions; (e) the weekday/month tables put every name and abbreviation at its calendar position. Comparator values are built per use: none is stored in package-level state at run time, and no package-level comparator is built from a constructor with memory; the per-pair-strategy rule covers nested and De Morgan forms and identifies the class order by the predicates used. " +
 			"NOT decided: chronological correctness of `date` (delegated to dateparse/time), numeric ordering of every spelling, transitivity beyond the structural conditions above.",
 		Assume: []string{"sort.Sort yields a permutation determined by the comparator when the comparator is a strict weak order on distinct keys"},
 	})
 	register(&propDef{
 		ID:  "C03",
 		Run: runC03,
-		Explain: "Decided: (a) single sampler: every call that mutates an aggregator (Sample, SampleValue, SampleItem, Samplef, Trim) from outside pkg/aggregation happens in RunAggregationLoop with the output mutex held, or inside a render callback (which runs under that mutex or after the ticker stopped); workers hand matches over only through the extractor's channel; the final render is unconditional and ordered after the done handshake (same rules as C05-b); (b) no hash order in any exported result: every range over a map in pkg/aggregation, pkg/csv and cmd is order-insensitive or sorted before use, and name/value comparators carry a name tie-break; (c) CSV goes through encoding/csv: every record written by pkg/csv reaches (*encoding/csv.Writer).Write, Close flushes before closing the file; (d) exit status: DetermineErrorState returns 2 exactly on the paths with read errors or parse errors, 1 exactly when neither and nothing matched, nil otherwise, and every aggregating command ends by returning it. " +
+		Explain: "Decided: (a) single sampler: every call that mutates an aggregator (Sample, SampleValue, SampleItem, Samplef, Trim) from outside pkg/aggregation happens in RunAggregationLoop with the output mutex held, or inside a render callback (which runs under that mutex or after the ticker stopped); workers hand matches over only through the extractor's channel; the final render is unconditional and ordered after the done handshake (same rules as C05-b); (b) no hash order in any exported result: every range over a map in pkg/aggregation, pkg/csv and cmd is order-insensitive or sorted before use, and name/value comparators carry a name tie-break; (c) CSV goes through encoding/csv: every record written by pkg/csv reaches (*encoding/csv.Writer).Write, Close flushes before closing the file; (d) exit status: DetermineErrorState returns 2 exactly on the paths with read errors or parse errors, 1 exactly when neither and nothing matched, nil otherwise, and every aggregating command ends by returning it. (e) what the aggregators fold is what was extracted: the redundant-state rules of C07 (same accumulation set on all paths, bad increments counted and never sampled, min/max independent). " +
 			"NOT decided: equality with an independent aggregation for every corpus, RFC-4180 round trip of arbitrary keys (delegated to encoding/csv), independence from file order for order-sensitive accumulators.",
 		Assume: []string{"encoding/csv quotes fields per RFC 4180"},
 	})
